@@ -540,8 +540,8 @@ def str_method(ev: Ev, s: Val, name: str, args: list[Val], n: ast.Call) -> Val:
 		return Val(STR, f(x, a.term, b.term))
 	if name == 'isdigit':
 		return Val(BOOL, z3.InRe(x, z3.Plus(z3.Range('0', '9'))))
-	if name == 'encode':
-		return s
+	if name in ('encode', 'decode'):
+		return s  # bytes are modelled as text
 	raise EngineError(f'str.{name} not modelled')
 
 
@@ -770,7 +770,7 @@ def call_external(ev: Ev, name: str, args: list[Val]) -> Val:
 		for exc, cond in e.raises.items():
 			if cond is None:
 				b = z3.Const(fresh_name(f'may_{exc}'), z3.BoolSort())
-				ev.exit_if(b, exc)
+				ev.exit_if(b, exc, any_subclass=exc in ('Exception', 'BaseException'))  # "may raise anything": any subclass
 			else:
 				sub = Ev(ev.eng, ev.fn, State(env, ev.st.pc), ev.oracle, 'spec')
 				ev.exit_if(sub.truth(ast.parse(cond, mode='eval').body), exc)
@@ -982,6 +982,9 @@ def inline_call(ev: Ev, fs: source.FuncSrc, args: list[Val], kwargs: dict[str, V
 	if ev.fn.dyn and fs.cls is not None and ev.fn.src is not None and fs.file == ev.fn.src.file:
 		callee.dyn = ev.fn.dyn
 	callee.label = ev.fn.label + '>' + fs.qualname.split('.')[-1]
+	if closure is not None:
+		# a nested def shares the enclosing method's class context (name mangling, dispatch, module)
+		callee.cname, callee.dyn, callee.mod = ev.fn.cname, ev.fn.dyn, ev.fn.mod
 	env = dict(closure or {})
 	env.update(bind_params(ev, fs, args, kwargs, callee))
 	ev.eng.inlined.add((fs.file, fs.qualname))
